@@ -22,6 +22,7 @@ import SA.Props.C13
 import SA.Props.C07
 import SA.Proofs.DnsServerQueues
 import SA.Proofs.DnsServerRefine
+import SA.Proofs.DnsServerProv
 
 namespace SA.Props.C13
 open SA.Go SA.Go.Res SA.DnsServer
@@ -222,6 +223,102 @@ theorem C13_streams_only_own_peer (cd : Codec) (hT : cd.Total) (hB : cd.Bytes) (
     rw [hans] at h1
     exact pointwise_map_right ansOfResp h1
 
+/-! ## provenance, with no assumption on the peer -/
+
+/-- **provenance** (owner arbitrary, e.g. hostile or buggy): after ANY history, the bytes released to the reader of
+    session object `sid` are a concatenation of payloads of packets of `sid`'s own trace (requests that carried its
+    identifier, from its owner, while it was live); the packets parked out of order are such payloads; and every chunk
+    queued for — hence every chunk ever handed out in an answer to — the owner is a chunk of a Write of the application
+    on `sid`.  No byte of a request for another identifier, from another address, or for a stale identifier, and no
+    byte written to another connection object, is in `sid`'s queues. -/
+theorem C13_stream_bytes_provenance (cd : Codec) (hT : cd.Total) (dom : List Nat) (ops : List Op) (sid : Nat) :
+    (∃ L : List (List Nat), ((run cd dom Srv.init ops).sess sid).inq.buf = L.flatten ∧
+        ∀ x ∈ L, x ∈ payloadsOf (sessTrace cd dom sid ops)) ∧
+    (∀ f ∈ ((run cd dom Srv.init ops).sess sid).inq.future, f.2 ∈ payloadsOf (sessTrace cd dom sid ops)) ∧
+    (∀ c ∈ ((run cd dom Srv.init ops).sess sid).outq.out, c.2 ∈ chunksOf (sessTrace cd dom sid ops)) := by
+  have h := trace_prov (sessTrace cd dom sid ops) [] [] _ prov_init
+  rw [← C13_session_queues_own_trace cd hT dom ops sid] at h
+  simp only [List.nil_append] at h
+  exact ⟨h.buf, h.fut, h.out⟩
+
+/-! ## non-vacuity: a history with two sessions, a spoofer, a stale identifier and application writes -/
+
+def exDom : List Nat := [116, 46, 99, 111]
+def exSfx : List Nat := [46, 116, 46, 99, 111, 46]
+
+/-- oracle codec: what the decoder returns for the four bodies of the history -/
+def exTable : List (Nat × List Nat × Option (List Nat)) :=
+  [(84, [120], some [0, 16, 0, 0]),               -- "x": version 4096
+   (84, [112], some [255, 255, 1, 0, 0, 7, 8]),   -- "p": ack 65535, packet #0 = 07 08
+   (84, [113], some [255, 255, 1, 0, 0, 66]),     -- "q": ack 65535, packet #0 = 42
+   (84, [114], some [255, 255, 0])]               -- "r": ack 65535, no packet (poll)
+
+def exCodec : Codec := oracleCodec exTable
+
+def vName : List Nat := [118, 97, 97, 97, 120] ++ exSfx
+def pName (u b : Nat) : List Nat := [99, 97, 97, 97, 48, 48 + u, b] ++ exSfx
+
+def exOps : List Op :=
+  [.msg { addr := 1, qtype := 16, name := vName },          -- address 1 opens session object 0 (id 0)
+   .msg { addr := 2, qtype := 16, name := vName },          -- address 2 opens session object 1 (id 1)
+   .msg { addr := 3, qtype := 16, name := pName 0 113 },    -- spoofer: id 0 from address 3, payload 42
+   .msg { addr := 1, qtype := 16, name := pName 0 112 },    -- owner of 0: packet #0 = 07 08
+   .msg { addr := 2, qtype := 16, name := pName 1 113 },    -- owner of 1: packet #0 = 42
+   .msg { addr := 2, qtype := 16, name := pName 0 113 },    -- owner of 1 names id 0
+   .write 1 [9, 9],                                         -- application writes to object 1
+   .write 0 [5, 6, 7],                                      -- application writes to object 0
+   .close 1, .tick 200,
+   .msg { addr := 2, qtype := 16, name := pName 1 113 },    -- stale identifier 1
+   .msg { addr := 1, qtype := 16, name := pName 0 114 }]    -- owner of 0 polls and is handed 05 06 07
+
+/-- the owner of session 0 as a C07 client: write 07 08, one delivered exchange; the server application writes
+    05 06 07; one more delivered exchange -/
+def exEvs : List SA.Queue.Ev := [.write false [7, 8], .xchg .d, .write true [5, 6, 7], .xchg .d]
+
+theorem exCodec_total : exCodec.Total := fun _ _ => rfl
+
+theorem oracle_bytes (tbl : List (Nat × List Nat × Option (List Nat)))
+    (h : (tbl.all fun e => match e.2.2 with | some d => d.all (· < 256) | none => true) = true) :
+    (oracleCodec tbl).Bytes := by
+  intro c i d hd b hb
+  simp only [oracleCodec] at hd
+  cases hf : tbl.find? (fun e => e.1 == c && e.2.1 == i) with
+  | none => simp [hf] at hd
+  | some e =>
+    simp only [hf] at hd
+    have := List.all_eq_true.mp h e (List.mem_of_find?_eq_some hf)
+    rw [hd] at this
+    simp only [List.all_eq_true, decide_eq_true_eq] at this
+    exact this b hb
+
+theorem exCodec_bytes : exCodec.Bytes := oracle_bytes exTable (by decide)
+
+/-- the trace of session object 0 is the B-side trace of the client history: the spoofed request, the requests of
+    the other session's owner (for its own and for this identifier) and the write on the other object are not in it -/
+theorem ex_peer : sessTrace exCodec exDom 0 exOps =
+    (SA.Queue.bTrace SA.Queue.Cfg.gen SA.Gen.defaultDownstreamFragmentSize (SA.Queue.init 0 0) exEvs).map eraseB := by
+  decide +kernel
+
+example : sessTrace exCodec exDom 0 exOps = [.pkt 65535 (some (0, [7, 8])), .wr [5, 6, 7] [[5, 6, 7]], .pkt 65535 none] ∧
+    sessTrace exCodec exDom 1 exOps = [.pkt 65535 (some (0, [66])), .wr [9, 9] [[9, 9]]] := by decide +kernel
+
+example : SA.Queue.WellBounded SA.Queue.Cfg.gen SA.Gen.defaultDownstreamFragmentSize 0 1 exEvs := by decide
+
+/-- all hypotheses of `C13_streams_only_own_peer` hold together on this history -/
+example := C13_streams_only_own_peer exCodec exCodec_total exCodec_bytes exDom exOps 0 SA.Gen.defaultDownstreamFragmentSize 0 1
+  exEvs (by decide) (by decide) ex_peer
+
+/-- and its conclusion is not trivial: session 0 released 07 08 (not the spoofer's 42), session 1 released 42, and the
+    chunk 05 06 07 written to object 0 was handed out — in the answer to the owner's poll -/
+example : ((run exCodec exDom Srv.init exOps).sess 0).inq.buf = [7, 8] ∧
+    ((run exCodec exDom Srv.init exOps).sess 1).inq.buf = [66] ∧
+    ((run exCodec exDom Srv.init exOps).sess 0).outq.out = [(0, [5, 6, 7])] ∧
+    writtenOf (sessTrace exCodec exDom 0 exOps) = [5, 6, 7] ∧ payloadsOf (sessTrace exCodec exDom 0 exOps) = [[7, 8]] := by
+  decide +kernel
+
+example := C13_stream_bytes_provenance exCodec exCodec_total exDom exOps 0
+example := C13_same_trace_same_queues exCodec exCodec_total exDom exOps exOps 0 0 rfl
+
 end SA.Props.C13
 
 #print axioms SA.Props.C13.C13_session_queues_own_trace
@@ -229,3 +326,4 @@ end SA.Props.C13
 #print axioms SA.Props.C13.C13_answers_own_trace
 #print axioms SA.Props.C13.C13_session_refines_queue_endpoint
 #print axioms SA.Props.C13.C13_streams_only_own_peer
+#print axioms SA.Props.C13.C13_stream_bytes_provenance
